@@ -62,7 +62,10 @@ class V1Parser:
             invalid PROXY header.
         """
         self.buffer += data
-        if len(self.buffer) > 107 and self.NEWLINE not in self.buffer:
+        # The line terminator has to arrive within the first 108 bytes,
+        # however the bytes were delivered.
+        end = self.buffer.find(self.NEWLINE)
+        if end > 106 or (end < 0 and len(self.buffer) > 107):
             raise InvalidProxyHeader()
         lines = (self.buffer).split(self.NEWLINE, 1)
         if not len(lines) > 1:
